@@ -362,6 +362,29 @@ func codecValue(val string, d *driver, k int) *big.Int {
 		return new(big.Int).Sub(two256, one)
 	case "2^255":
 		return new(big.Int).Lsh(one, 255)
+	case "3r":
+		return new(big.Int).Mul(r, big.NewInt(3))
+	case "4r+1":
+		return new(big.Int).Add(new(big.Int).Mul(r, big.NewInt(4)), one)
+	case "5r-1":
+		return new(big.Int).Sub(new(big.Int).Mul(r, big.NewInt(5)), one)
+	case "8r":
+		return new(big.Int).Mul(r, big.NewInt(8))
+	case "8r-1":
+		return new(big.Int).Sub(new(big.Int).Mul(r, big.NewInt(8)), one)
+	case "r~64", "r~128", "r~192": // r with its low 64/128/192 bits replaced by random ones
+		bits := map[string]uint{"r~64": 64, "r~128": 128, "r~192": 192}[val]
+		hi := new(big.Int).Rsh(r, bits)
+		hi.Lsh(hi, bits)
+		low := new(big.Int).Rsh(newPrg("codec", d.seed, k).big(256), 256-bits)
+		return hi.Add(hi, low)
+	case "r+2^64", "r-2^64", "r+2^128", "r-2^128", "r+2^192", "r-2^192":
+		sh := map[string]uint{"64": 64, "28": 128, "92": 192}[val[len(val)-2:]]
+		dlt := new(big.Int).Lsh(one, sh)
+		if val[1] == '-' {
+			return new(big.Int).Sub(r, dlt)
+		}
+		return new(big.Int).Add(r, dlt)
 	case "max": // all 0xff on the requested length
 		return nil
 	case "hi": // only the most significant byte set
